@@ -243,7 +243,7 @@ def build_props(prop, timeout=1800):
     assumptions = {}
     discharged = 0
     if built:
-        chk = CASES_DIR / f"{prop}_assumptions.v"
+        chk = CASES_DIR / f"{prop}_{TAG}_assumptions.v"
         CASES_DIR.mkdir(exist_ok=True)
         lines = [f"From SFV.Props Require Import {prop}."]
         for n in names:
@@ -284,9 +284,31 @@ def _compile_shard(path):
 LAST_SKIPPED = {}
 
 
+# Several checks - also of the same property - may run at the same time (seeded-change validation):
+# every generated Coq file carries the id of the process that wrote it.
+TAG = f"p{os.getpid()}"
+
+
 def clean_cases(prop):
-    """remove every generated shard file of this property (sources and compiler output)"""
-    for old in list(CASES_DIR.glob(f"{prop}_s*")) + list(CASES_DIR.glob(f".{prop}_s*")):
+    """remove the generated files of this process, and those left behind by processes that are gone"""
+    if not CASES_DIR.exists():
+        return
+    for old in CASES_DIR.iterdir():
+        m = re.match(r"^\.?[A-Za-z0-9]+_p(\d+)_", old.name)
+        if not m:
+            continue
+        pid = int(m.group(1))
+        mine = pid == os.getpid()
+        if not mine:
+            try:
+                os.kill(pid, 0)
+                continue                 # still running: not ours to remove
+            except ProcessLookupError:
+                pass
+            except OSError:
+                continue
+        elif not re.match(rf"^\.?{re.escape(prop)}_{TAG}_(s\d|eval|assumptions)", old.name):
+            continue
         try:
             old.unlink()
         except OSError:
@@ -313,7 +335,7 @@ def check_cases_in_coq(prop, model_module, terms, shard=300, check_fn="check_cas
               "Import ListNotations. Open Scope Z_scope. Open Scope string_scope.\n")
     paths = []
     for k, sh_cases in enumerate(shards):
-        p = CASES_DIR / f"{prop}_s{k}.v"
+        p = CASES_DIR / f"{prop}_{TAG}_s{k}.v"
         body = ";\n  ".join(t for _, t in sh_cases)
         extra = (f"Eval vm_compute in (Z.of_nat (length (filter {skipped_fn} cases))).\n"
                  if skipped_fn else "")
@@ -332,7 +354,7 @@ def check_cases_in_coq(prop, model_module, terms, shard=300, check_fn="check_cas
                 skipped += int(m.group(1))
             continue
         # locate failing cases of this shard
-        p = CASES_DIR / f"{prop}_s{k}_loc.v"
+        p = CASES_DIR / f"{prop}_{TAG}_s{k}_loc.v"
         body = ";\n  ".join(t for _, t in shards[k])
         p.write_text(header + f"Definition cases := [\n  {body}\n].\n"
                      f"Eval vm_compute in failing {check_fn} cases.\n")
@@ -354,7 +376,7 @@ def check_cases_in_coq(prop, model_module, terms, shard=300, check_fn="check_cas
 def eval_in_coq(prop, model_module, expr, extra_imports=()):
     """Evaluate one Coq expression with vm_compute and return the printed text."""
     CASES_DIR.mkdir(exist_ok=True)
-    p = CASES_DIR / f"{prop}_eval.v"
+    p = CASES_DIR / f"{prop}_{TAG}_eval.v"
     p.write_text("From SFV Require Import Base " + model_module + ".\n" +
                  "".join(f"{l}\n" for l in extra_imports) +
                  "Import ListNotations. Open Scope Z_scope. Open Scope string_scope.\n"
@@ -388,7 +410,13 @@ def write_evidence(prop, tier, seed, wall, coverage, assumptions, violations):
     ev = {"property_id": prop, "tier": tier, "seed": seed, "level": "proof",
           "coverage": coverage, "assumptions": assumptions, "wall_s": round(wall, 2),
           "violations": violations}
-    (EVIDENCE / f"{prop}.json").write_text(json.dumps(ev, indent=1, default=str))
+    target = EVIDENCE / f"{prop}.json"
+    if REPO.resolve() != Path("/repo"):
+        # a run against a scratch copy (seeded-change validation, SFV_REPO): its evidence is not the
+        # evidence of /repo and must not replace it
+        ev["repo"] = str(REPO)
+        target = EVIDENCE / f".scratch_{prop}_{TAG}.json"
+    target.write_text(json.dumps(ev, indent=1, default=str))
 
 
 def repo_fingerprint():
